@@ -80,6 +80,7 @@ struct Inst {
     unit: bool,             // only unit weights so far
     delta: f64,
     kind: String,
+    acc: [f64; 4], // running: sum of positive products, sum of negative products, max, min (known finding near-max-overflow)
 }
 
 pub struct D {
@@ -108,13 +109,20 @@ fn obs(f: &TDigest<LogScale>) -> Vec<String> {
 impl Inst {
     /// (the positive or the negative products x*w sum beyond f64::MAX, max - min overflows)
     fn overflow(&self) -> (bool, bool) {
-        let pos: f64 = self.items.iter().filter(|t| t.0 > 0.0).map(|t| t.0 * t.1).sum();
-        let neg: f64 = self.items.iter().filter(|t| t.0 < 0.0).map(|t| t.0 * t.1).sum();
-        let mx = self.items.iter().map(|t| t.0).fold(f64::NEG_INFINITY, f64::max);
-        let mn = self.items.iter().map(|t| t.0).fold(f64::INFINITY, f64::min);
+        let [pos, neg, mx, mn] = self.acc;
         (pos.is_infinite() || neg.is_infinite(), !self.items.is_empty() && (mx - mn).is_infinite())
     }
+    fn note(&mut self, x: f64, w: f64) {
+        if x > 0.0 {
+            self.acc[0] += x * w;
+        } else if x < 0.0 {
+            self.acc[1] += x * w;
+        }
+        self.acc[2] = self.acc[2].max(x);
+        self.acc[3] = self.acc[3].min(x);
+    }
 }
+const ACC0: [f64; 4] = [0.0, 0.0, f64::NEG_INFINITY, f64::INFINITY];
 
 impl D {
     /// property oracles on the implementation alone (C16 aggregates, C15 shape, C04 size)
@@ -328,6 +336,9 @@ impl D {
             // the returned value is allowed a few ulps: a value an ulp below a tie block would otherwise be
             // charged the whole block
             let v = f.quantile(q);
+            if !v.is_finite() {
+                continue; // already reported above; cdf rejects a NaN argument
+            }
             let c = f.cdf(v).max(f.cdf(v + eps_v));
             if c < q - 64.0 * eps_c - 1e-12 {
                 ctx.fail("C15", format!("cdf(quantile({}))={} < q", q, c));
@@ -372,7 +383,7 @@ impl Driver for D {
     fn touched(&self, op: &[String]) -> Vec<usize> {
         match op[0].as_str() {
             "clone" => vec![p(&op[2])],
-            "ins" | "clear" | "new" => vec![p(&op[1])],
+            "ins" | "insseq" | "clear" | "new" => vec![p(&op[1])],
             // reads merge the backlog (interior mutability) but must not change any observable
             _ => vec![],
         }
@@ -428,7 +439,7 @@ impl D {
                     _ => Sf::K3(K3::new(delta)),
                 };
                 let f = TDigest::new(LogScale { inner: sf, log: Rc::clone(&self.log) }, p(&op[4]));
-                put(&mut self.v, i, Inst { f, ctor: op.to_vec(), items: vec![], unit: true, delta, kind: op[2].clone() });
+                put(&mut self.v, i, Inst { f, ctor: op.to_vec(), items: vec![], unit: true, delta, kind: op[2].clone(), acc: ACC0 });
                 vec!["unit".into()]
             }
             "ins" => {
@@ -438,6 +449,7 @@ impl D {
                 inst.f.insert_weighted(x, w);
                 if w > 0.0 {
                     inst.items.push((x, w));
+                    inst.note(x, w);
                     if w != 1.0 {
                         inst.unit = false;
                     }
@@ -446,6 +458,18 @@ impl D {
                     if obs(&inst.f) != b {
                         ctx.fail("C16", "zero-weight insert changed the digest".into());
                     }
+                }
+                vec!["unit".into()]
+            }
+            "insseq" => {
+                // oracle-only long streams (no model replay): n unit-weight values, sorted (kind 0) or pseudo-random
+                let (n, kind, seed): (u64, u64, u64) = (p(&op[2]), p(&op[3]), p(&op[4]));
+                let inst = self.v[i].as_mut().unwrap();
+                for j in 0..n {
+                    let x = if kind == 0 { (inst.items.len() as f64) + 0.5 } else { (crate::rec::splitmix(seed ^ j) >> 11) as f64 / (1u64 << 53) as f64 };
+                    inst.f.insert(x);
+                    inst.items.push((x, 1.0));
+                    inst.note(x, 1.0);
                 }
                 vec!["unit".into()]
             }
@@ -462,6 +486,7 @@ impl D {
                 let inst = self.v[i].as_mut().unwrap();
                 inst.f.clear();
                 inst.items.clear();
+                inst.acc = ACC0;
                 inst.unit = true;
                 if !inst.f.is_empty() {
                     ctx.fail("C19", "tdigest not empty after clear".into());
